@@ -47,6 +47,16 @@ CLAIMED = {
    technique="contract-based deductive verification: VCs from the jaxpr of the real *_apply functions and evaluate "
              "methods over uninterpreted networks/functions, ring normalisation + z3",
    design_ref="DESIGN.md §5 C05", note=B_NOTE + " Normalisation is stated for scalar-valued u; counts enumerated 1..3."),
+ "C06": dict(
+   text="For LossODE / LossPDEStatio / LossPDENonStatio with every term configured, one VC per parameter group with "
+        "*symbolic* Boolean masks proves  d total/d g == sum_T mask[T][g] * d spec_T/d g  (so every unselected "
+        "(term, group) pair contributes exactly zero, for all 2^(terms x groups) assignments at once) and that loss "
+        "values do not depend on the masks; _set_derivatives on ParamsDict likewise. Mask construction from strings / "
+        "defaults is pure Python over concrete structures and is checked exhaustively for key sets of size 0..3 "
+        "(labelled bounded, not counted as proved).",
+   technique="contract-based deductive verification: VCs from the jaxpr of jax.grad of the real evaluate with symbolic "
+             "idempotent Boolean masks, ring normalisation + z3; bounded exhaustive stand-in for the mask builders",
+   design_ref="DESIGN.md §5 C06", note=B_NOTE + " System-loss per-unknown terms reuse these single losses (C13)."),
 }
 PENDING_REASON = "check not built yet (framework under construction); will be claimed once its contracts verify"
 NA = {}
